@@ -1,4 +1,6 @@
 import Cgm.Lemmas.AuditCmd
 import Cgm.E2E.C14
 import Cgm.E2E.C14b
+import Cgm.E2E.C14g
+import Cgm.E2E.C14h
 #audit_namespace Cg.E2E.C14
